@@ -2,6 +2,7 @@ package props
 
 import (
 	"fmt"
+	"strings"
 	"testing"
 	"time"
 
@@ -64,7 +65,7 @@ func renderBound(t *rapid.T, now time.Time, delta int64, defectOK bool, label st
 	b := Bound{DeltaNs: delta}
 	at := now.Add(time.Duration(delta))
 	if defectOK && rapid.IntRange(0, 7).Draw(t, label+"Defective") == 0 {
-		b.Defect = rapid.SampledFrom([]string{"absent", "empty", "garbage", "dateonly", "nozone", "lspace", "tspace"}).Draw(t, label+"Defect")
+		b.Defect = rapid.SampledFrom([]string{"absent", "empty", "garbage", "dateonly", "nozone", "lspace", "tspace", "lower-tz", "space-sep", "plus-sign-missing"}).Draw(t, label+"Defect")
 		switch b.Defect {
 		case "empty":
 			b.Text = ""
@@ -78,6 +79,12 @@ func renderBound(t *rapid.T, now time.Time, delta int64, defectOK bool, label st
 			b.Text = " " + at.UTC().Format(time.RFC3339Nano)
 		case "tspace":
 			b.Text = at.UTC().Format(time.RFC3339Nano) + " "
+		case "lower-tz": // RFC 3339 allows "t" / "z"; xs:dateTime and Go's parser do not
+			b.Text = strings.ToLower(at.UTC().Format(time.RFC3339))
+		case "space-sep":
+			b.Text = at.UTC().Format("2006-01-02 15:04:05Z")
+		case "plus-sign-missing":
+			b.Text = at.UTC().Format("2006-01-02T15:04:05") + "00:00"
 		}
 		return b
 	}
@@ -144,6 +151,28 @@ func genC05(t *rapid.T) C05Case {
 			d = -d + 1 // bias towards not-expired so that the Conditions logic is reached
 		}
 		c.SC = append(c.SC, renderBound(t, now, d, true, "sc"))
+	}
+	// a later assertion's bound that is a defective RE-SPELLING of the bound before it (same characters in another
+	// case, with a blank, truncated): an unparsable bound is rejected whatever it resembles
+	if n >= 2 && rapid.IntRange(0, 3).Draw(t, "respellPrevious") == 0 {
+		i := rapid.IntRange(1, n-1).Draw(t, "respellAt")
+		if prev := c.SC[i-1]; prev.Defect == "" && prev.Text != "" {
+			how := rapid.SampledFrom([]string{"lower", "upper-z-lower-t", "trailing-blank", "truncated"}).Draw(t, "respellHow")
+			txt := prev.Text
+			switch how {
+			case "lower":
+				txt = strings.ToLower(txt)
+			case "upper-z-lower-t":
+				txt = strings.Replace(txt, "T", "t", 1)
+			case "trailing-blank":
+				txt += " "
+			case "truncated":
+				txt = txt[:len(txt)-1]
+			}
+			if txt != prev.Text {
+				c.SC[i] = Bound{DeltaNs: prev.DeltaNs, Text: txt, Defect: "respelled-" + how}
+			}
+		}
 	}
 	c.NB = renderBound(t, now, genDelta(t, "nbDelta"), true, "nb")
 	c.CN = renderBound(t, now, genDelta(t, "cnDelta"), true, "cn")
